@@ -52,18 +52,7 @@ Section UNIQUAC.
   Proof. exact (uniquac_asis_vs_spec u k1 k2 T x). Qed.
 End UNIQUAC.
 
-(* the full statement is FALSE for the formula as written: a concrete admissible parameter set
-   (r = q = q' = 1, z = 10, tau12 = 1/2, tau21 = 2, x = 1/2) with Gibbs-Duhem residual > 0.1 *)
-Theorem C04_uniquac_gibbs_duhem_asis_refuted :
-  exists (u : UQParams ROps) (k1 k2 : UQConst ROps) (T x : R),
-    0 < uq_r k1 /\ 0 < uq_r k2 /\ 0 < uq_q k1 /\ 0 < uq_q k2 /\ 0 < uq_qi k1 /\ 0 < uq_qi k2 /\ 0 < T /\ 0 < x < 1 /\
-    x * Derive (fun y => ln (fst (uniquac_gamma_gen ROps false u k1 k2 T y (1 - y)))) x
-    + (1 - x) * Derive (fun y => ln (snd (uniquac_gamma_gen ROps false u k1 k2 T y (1 - y)))) x <> 0.
-Proof.
-  exists wit_u, wit_k, wit_k, 1, (1/2). cbn [wit_k uq_r uq_q uq_qi].
-  repeat (split; [lra|]). apply Rgt_not_eq.
-  eapply Rgt_trans; [exact uniquac_asis_GD_refuted | lra].
-Qed.
+(* the full statement is FALSE for the formula as written: see Props/C04w.v (refutation witness, interval arithmetic) *)
 
 (* what calculate_activity_coefficients returns is exactly these functions (chain to the bridged entry point) *)
 Theorem C04_activity_is_nrtl spec (m : Mixture ROps) p T x :
@@ -103,5 +92,4 @@ End PP.
 
 Print Assumptions C04_nrtl_gibbs_duhem.
 Print Assumptions C04_uniquac_gibbs_duhem_spec.
-Print Assumptions C04_uniquac_gibbs_duhem_asis_refuted.
 Print Assumptions C04_basis_independent.
